@@ -135,6 +135,10 @@ func isImage(segPath string) bool {
 	return path.Ext(segPath) == ".jpg"
 }
 
+// timeCompareEpsilonS absorbs float rounding when comparing times in seconds.
+// It is far below the resolution of both the millisecond clock and any media timescale in use.
+const timeCompareEpsilonS = 1e-6
+
 // CheckTimeValidity checks if availTimeS is a valid time given current time and parameters.
 // Returns errors if too early, or too late. availabilityTimeOffset < 0 signals always available.
 func CheckTimeValidity(availTimeS, nowS, timeShiftBufferDepthS, availabilityTimeOffsetS float64) error {
@@ -146,7 +150,7 @@ func CheckTimeValidity(availTimeS, nowS, timeShiftBufferDepthS, availabilityTime
 	if availabilityTimeOffsetS > 0 {
 		availTimeS -= availabilityTimeOffsetS
 	}
-	if availTimeS > nowS {
+	if availTimeS-nowS > timeCompareEpsilonS {
 		return newErrTooEarly(int(math.Round((availTimeS - nowS) * 1000.0)))
 	}
 	if availTimeS < nowS-(timeShiftBufferDepthS+timeShiftBufferDepthMarginS) {
